@@ -23,6 +23,17 @@ def gen(rng):
         M = np.hstack([np.ones((n, 1)), idx])
         if np.linalg.matrix_rank(M) == 3 and np.linalg.cond(M) < 100:
             break
+    if rng.random() < 0.15:
+        # indices that are nearly -- but not -- whole numbers relative to their size: expected pixel positions for unit base vectors on a large
+        # frame, or indices relative to a reference lattice strained by a few ppm
+        if rng.integers(0, 2):
+            idx = rng.integers(1200, 2900, size=(n, 2)).astype(float) + rng.uniform(0, 0.0145, size=(n, 2))
+            a, b = np.array([1.0, 0.0]) + rng.normal(0, 1e-3, 2), np.array([0.0, 1.0]) + rng.normal(0, 1e-3, 2)
+        else:
+            idx = rng.integers(-40, 41, size=(n, 2)).astype(float) * (1 + 6e-6)
+        M = np.hstack([np.ones((n, 1)), idx - idx.mean(axis=0)])
+        if np.linalg.matrix_rank(M) < 3 or np.linalg.cond(M) > 100:
+            idx = np.array([[-40.0, 3.0], [17.0, 40.0], [39.0, -22.0], [5.0, 5.0]] * (n // 4 + 1))[:n] * (1 + 6e-6) + np.arange(n)[:, None]
     pos = zero + idx @ np.array([a, b]) + rng.normal(0, rng.choice([0.0, 0.3, 3.0]), size=(n, 2))
     w = np.exp(rng.uniform(np.log(1e-2), np.log(100), n)) if rng.integers(0, 2) else rng.uniform(0.01, 100, n)
     return idx, pos, w
@@ -86,6 +97,19 @@ def stmt_failure(idx, pos, w, seed=0):
         if not np.allclose(mo.calculated_refineds, calc, atol=1e-9 * sc) or abs(mo.error - e_want) > 1e-9 * max(1.0, e_want):
             return ('%s() of a Match whose error / calculated_refineds had been read before: reported error %.6g, calculated positions off by %.3g; '
                     'the returned lattice has error %.6g' % (nm, mo.error, float(np.abs(mo.calculated_refineds - calc).max()), e_want))
+    # the fit is a function of positions, indices and weights only: whatever lattice the Match object carried before (none, NaN as in an
+    # invalid match, infinite, absurdly far off) must not matter
+    for nm, z0, a0, b0 in (('NaN', np.full(2, np.nan), np.full(2, np.nan), np.full(2, np.nan)), ('inf zero', np.full(2, np.inf), m.a, m.b),
+                           ('zero = (1e20, -1e20)', np.array([1e20, -1e20]), m.a, m.b), ('a = b = 0', m.zero, np.zeros(2), np.zeros(2))):
+        md = grm.Match(grm.CorrelationResult(centers=pos, refineds=pos, peak_values=w, peak_elevations=w), selector=None, zero=z0, a=a0, b=b0, indices=idx)
+        for meth, want in (('weighted_optimize', m), ('optimize', mu)):
+            try:
+                got = getattr(md, meth)()
+            except Exception as e:  # noqa
+                return '%s() of a Match that carried the lattice %s raised %s: %s' % (meth, nm, type(e).__name__, e)
+            if not (np.allclose(got.zero, want.zero, atol=1e-7 * sc, rtol=0) and np.allclose(got.a, want.a, atol=1e-7 * sc, rtol=0) and np.allclose(got.b, want.b, atol=1e-7 * sc, rtol=0)):
+                return '%s() depends on the lattice the Match carried before (%s): zero %s, a %s, b %s instead of zero %s, a %s, b %s' % (
+                    meth, nm, np.asarray(got.zero).tolist(), np.asarray(got.a).tolist(), np.asarray(got.b).tolist(), np.asarray(want.zero).tolist(), np.asarray(want.a).tolist(), np.asarray(want.b).tolist())
     # rescaling the weights
     for k in (1e-30, 1e-14, 1e-11, 1e-8, 1e-6, 1e-3, 0.5, 7.0, 1e3, 1e6, 1e12):
         m2 = matcher.affinematch(centers=pos, refineds=pos, peak_values=w * k, peak_elevations=w * k, indices=idx)
